@@ -77,7 +77,7 @@ func decide(t fataler, s *graph.Scenario, tag string) {
 	}
 	if in.Out.Err == nil {
 		// every populated point holds admissible targets only, required ones hold theirs, and slices hold ALL of theirs
-		if err := graph.CheckWiringOpt(g, graph.WiringOpts{Complete: true}); err != nil {
+		if err := graph.CheckWiringOpt(g, graph.WiringOpts{Complete: true, Rank: true}); err != nil {
 			t.Fatalf("C02: %v\nscenario: %s\nreg %v ordmode %d seed %x", err, desc, s.RegPerm, s.OrdMode, s.OrdSeed)
 		}
 		labels = append(labels, "started")
@@ -97,7 +97,7 @@ func decide(t fataler, s *graph.Scenario, tag string) {
 			}
 		}
 		if lazies > 0 {
-			if err := graph.CheckWiringOpt(g, graph.WiringOpts{Complete: true}); err != nil {
+			if err := graph.CheckWiringOpt(g, graph.WiringOpts{Complete: true, Rank: true}); err != nil {
 				t.Fatalf("C02: after looking every component up: %v\nscenario: %s", err, desc)
 			}
 			labels = append(labels, "lazy-components-looked-up")
@@ -113,7 +113,7 @@ func decide(t fataler, s *graph.Scenario, tag string) {
 			if in.Out.Panic != nil || in.Out.Err != nil {
 				t.Fatalf("C02: the same components started in a second container: %v (the first start succeeded)\nscenario: %s", in.Out, desc)
 			}
-			if err := graph.CheckWiringOpt(in.G, graph.WiringOpts{Complete: true}); err != nil {
+			if err := graph.CheckWiringOpt(in.G, graph.WiringOpts{Complete: true, Rank: true}); err != nil {
 				t.Fatalf("C02: second container over the same components: %v\nscenario: %s", err, desc)
 			}
 			labels = append(labels, "second-container-same-objects")
